@@ -36,6 +36,7 @@ TStep == /\ ~Done
          /\ UNCHANGED <<tid, fin>>
 TFinish == /\ Done /\ ~fin /\ fin' = TRUE
            /\ \A th \in Threads : DenOK(th)
+           /\ T.reg_ok                      \* C19: the rule tables / notrace sets / box and vspace registries are unchanged by the calls
            /\ PrintT(<<"ACCEPT", T.id>>)
            /\ (IF \A th \in Threads : MachineOK(th) /\ IdsOK(th) THEN TRUE ELSE PrintT(<<"DRIFT", T.id>>))
            /\ (IF \E th \in Threads : Den(prog, th).k = "unknown" THEN PrintT(<<"UNKNOWN", T.id>>) ELSE TRUE)
